@@ -24,6 +24,9 @@ inductive Attempt where
   | server    -- HTTPError with status 5xx (or any status outside 400..499)
   | client    -- HTTPError with 400 <= status < 500
   | typeErr   -- TypeError ("can't handle this, just abort")
+  | dropped   -- the request was received, but no complete answer came back: connection reset, time-out
+              -- or broken pipe while the response is read (a bare OSError out of `getresponse()`, not
+              -- wrapped in URLError), RemoteDisconnected / IncompleteRead (HTTPException)
 deriving DecidableEq, Repr
 
 structure SendResult where
@@ -36,6 +39,7 @@ deriving DecidableEq, Repr
 def retryable : Attempt → Bool
   | .refused => true
   | .server  => true
+  | .dropped => true
   | _        => false
 
 /-- the `while True` loop with `attempts` retries left and the current `wait_sec`.
